@@ -26,7 +26,7 @@ ASSUMPTIONS = [
 ]
 COMPONENTS = {"real": ["pyxel pipeline/processor/configuration", "dask get_async", "PyYAML"], "stub": ["thread pool"]}
 BUDGET = {"quick": {"n": 480, "wall": 100, "determinism": 4}, "thorough": {"n": 12000, "wall": 1500, "determinism": 12}}
-REQUIRED_REACH = ["variant:exposure", "variant:obs-seq", "variant:obs-par", "fault_prefix_checked", "yaml_twin", "debug_runs", "all_ten_groups"]
+REQUIRED_REACH = ["reconfigured_rerun", "warmup_then_observation", "variant:exposure", "variant:obs-seq", "variant:obs-par", "fault_prefix_checked", "yaml_twin", "debug_runs", "all_ten_groups"]
 
 
 def generate(rng, tier):
@@ -44,6 +44,18 @@ def generate(rng, tier):
         g, m = world.all_models(scn)[0]
         m["enabled"] = True
         en = [(g, m)]
+    # history: the same objects are run again after being reconfigured through the public interfaces
+    scn["warmup"] = rng.random() < 0.5
+    scn["reconf"] = []
+    if rng.random() < 0.6:
+        allm = world.all_models(scn)
+        for _ in range(rng.randint(1, 3)):
+            g, m = rng.choice(allm)
+            how = rng.choice(["attr", "item", "processor", "enabled"])
+            if how == "enabled":
+                scn["reconf"].append({"group": g, "model": m["name"], "how": how, "value": not m.get("enabled", True)})
+            else:
+                scn["reconf"].append({"group": g, "model": m["name"], "how": how, "arg": "level", "value": rng.choice([11, 13.5, 17])})
     if scn["variant"] == "exposure":
         scn["mode"] = {"kind": "exposure"}
         if rng.random() < 0.3:
@@ -90,6 +102,29 @@ def shrink(scn):
                 yield c
     if scn["mode"]["kind"] == "observation":
         yield from obs.shrink_observation(scn)
+
+
+def _reconfigure(scn, objects):
+    """Apply scn['reconf'] to the live objects and return the scenario they now correspond to."""
+    from pyxel.pipelines import Processor
+
+    mode, det, pipe = objects
+    s2 = copy.deepcopy(scn)
+    for r in scn["reconf"]:
+        mf = next(m for m in getattr(pipe, r["group"]).models if m.name == r["model"])
+        mj = next(m for m in s2["pipeline"][r["group"]] if m["name"] == r["model"])
+        if r["how"] == "enabled":
+            mf.enabled = r["value"]
+            mj["enabled"] = r["value"]
+        else:
+            if r["how"] == "attr":
+                setattr(mf.arguments, r["arg"], r["value"])
+            elif r["how"] == "item":
+                mf.arguments[r["arg"]] = r["value"]
+            else:
+                Processor(detector=det, pipeline=pipe).set(f"pipeline.{r['group']}.{r['model']}.arguments.{r['arg']}", r["value"])
+            mj["arguments"][r["arg"]] = r["value"]
+    return s2
 
 
 def _sig_order(scn):
@@ -140,13 +175,27 @@ def execute(scn, forced=None):
         elif b["exc"] is not None and not fault:
             viol.append({"clause": "C01.yaml-twin", "signature": f"C01.yaml-twin@raises:{type(b['exc']).__name__}", "detail": {"exc": repr(b["exc"])[:300], "tb": b.get("tb", "")[-800:]}})
         digest_parts = [obs.hist_digest(a["hist"]), obs.hist_digest(b["hist"])]
+        if scn.get("reconf") and not fault and a.get("objects") and not viol:
+            stats["reconfigured_rerun"] = 1
+            s2 = _reconfigure(scn, a["objects"])
+            from .. import probes
+
+            probes.HIST.clear()
+            c = expo.run_exposure(s2, objects=a["objects"], debug=scn["debug"], reset=False)
+            msg3 = expo.compare_events(expo.events_of(c["hist"]), expo.expected_events(s2)) if c["exc"] is None else f"raised {c['exc']!r}"
+            if msg3:
+                hows = "+".join(sorted({r["how"] for r in scn["reconf"]}))
+                viol.append({"clause": "C01.reconfigured", "signature": f"C01.reconfigured@exposure+{hows}", "detail": msg3})
+            digest_parts.append(obs.hist_digest(c["hist"]))
         sim_time = float(sum(scn["readout"]["times"][-1:]) - scn["readout"].get("start_time", 0.0)) * 2
     else:
         with_dask = variant == "obs-par"
         builder = "yaml" if scn["yaml_seed"] % 2 else "python"
         if builder == "yaml":
             stats["yaml_twin"] = 1
-        rec = obs.run_observation(scn, with_dask=with_dask, builder=builder, yaml_rng=random.Random(scn["yaml_seed"]), forced=forced)
+        rec = obs.run_observation(scn, with_dask=with_dask, builder=builder, yaml_rng=random.Random(scn["yaml_seed"]), forced=forced, warmup=bool(scn.get("warmup")))
+        if scn.get("warmup"):
+            stats["warmup_then_observation"] = 1
         om = scn["mode"]["obs_mode"]
         if rec["exc"] is not None:
             known_seq_vec = om == "sequential" and "dim_0" in repr(rec["exc"])
